@@ -60,6 +60,9 @@ pub trait SimHooks {
     fn knob(&self, name: &str, default: usize) -> usize;
     /// Should the named cooperative yield point yield now?
     fn buggify(&self, site: &str) -> bool;
+    /// A pending lock acquisition is being polled (lets the simulator notice tasks that busy-wait
+    /// on a lock while its simulated clock stands still).
+    fn lock_poll(&self);
 }
 
 thread_local! {
@@ -209,6 +212,16 @@ impl AsRawFd for TappedFile {
     }
 }
 
+/// Polls `f` to completion, reporting every poll to the installed hooks.
+async fn poll_tapped<F: std::future::Future>(f: F) -> F::Output {
+    let mut f = std::pin::pin!(f);
+    std::future::poll_fn(|cx| {
+        with(|h| h.lock_poll());
+        f.as_mut().poll(cx)
+    })
+    .await
+}
+
 /// `tokio::sync::RwLock` with a cooperative yield point before every acquisition, so that a
 /// simulator can interleave other tasks exactly where a multi-thread runtime could.
 #[derive(Debug)]
@@ -221,12 +234,12 @@ impl<T> RwLock<T> {
 
     pub async fn read(&self) -> tokio::sync::RwLockReadGuard<'_, T> {
         buggify_yield("lock.storage").await;
-        self.0.read().await
+        poll_tapped(self.0.read()).await
     }
 
     pub async fn write(&self) -> tokio::sync::RwLockWriteGuard<'_, T> {
         buggify_yield("lock.storage").await;
-        self.0.write().await
+        poll_tapped(self.0.write()).await
     }
 }
 
@@ -245,16 +258,16 @@ impl<T> AsRwLock<T> {
 
     pub async fn read(&self) -> async_lock::RwLockReadGuard<'_, T> {
         buggify_yield("lock.blob").await;
-        self.0.read().await
+        poll_tapped(self.0.read()).await
     }
 
     pub async fn write(&self) -> async_lock::RwLockWriteGuard<'_, T> {
         buggify_yield("lock.blob").await;
-        self.0.write().await
+        poll_tapped(self.0.write()).await
     }
 
     pub async fn upgradable_read(&self) -> async_lock::RwLockUpgradableReadGuard<'_, T> {
         buggify_yield("lock.blob").await;
-        self.0.upgradable_read().await
+        poll_tapped(self.0.upgradable_read()).await
     }
 }
